@@ -426,6 +426,19 @@ func (r *run) step(op map[string]any, ln *Line) {
 		setErr(err)
 		r.classifyFetch(op, resp, err, ln)
 
+	case "SetPrevCert":
+		k, from := w.EnsureCertKey(s(op, "k")), w.EnsureCertKey(s(op, "from"))
+		ni := &types.NodeInformation{Id: k.KeyId}
+		if w.Inner.Load(w.Ctx, ni) != nil {
+			ln.Res = "skip"
+			return
+		}
+		ni.PreviousCertificatePublicKeyPkix = from.Pkix
+		if err := w.Inner.Store(w.Ctx, ni); err != nil {
+			panic(err)
+		}
+		ln.Res = "ok"
+
 	case "FetchRace":
 		// two overlapping fetches presenting the same token for different keys: A is parked right before it removes
 		// the token record (it has loaded and checked it), B runs to completion, A goes on
@@ -582,6 +595,10 @@ func (r *run) submit(op map[string]any, ln *Line) {
 		info.CertificatePublicKeyPkix = nil
 	case "badCertType":
 		info.CertificatePublicKeyType = types.KEYTYPE_X25519
+	case "noCertType":
+		info.CertificatePublicKeyType = types.KEYTYPE_UNSPECIFIED
+	case "noEncType":
+		info.EncryptionPublicKeyType = types.KEYTYPE_UNSPECIFIED
 	case "noNonce":
 		info.Nonce = nil
 	case "noNotAfter":
